@@ -165,11 +165,19 @@ def monitorProbed (script : List Cmd) (iters : List Iter) (d : Nat) (answersOnly
       let asked := ((pk.filter fun q => q.k < p.k && q.ifi == p.ifi && !q.resp &&
         q.m.questions.any fun qu => lower qu.name == lower r.name && qu.ty == 255).map (·.t)).eraseDups
       let what := s!"rec={hexOfBytes r.name}/{r.ty} if={p.ifi} t={p.t} probes={probeTimes pk p.ifi p.k r}"
-      if renamedName && probedBy asked p.t then some s!"record-missing-from-first-probe-after-rename {what}"
-      else if tiebreak then some s!"probe-resumes-without-wakeup-after-lost-tiebreak {what}"
+      -- D37: after a host rename direct answers carry an SRV record with the OLD target, while
+      -- the announcements (and the probes) carried the new one
+      let staleSrv := r.ty == 33 && (rxs.any fun x => x.resp && x.k ≤ p.k) && pk.any fun q => q.k < p.k && q.resp &&
+        (q.m.answers.any fun r' => r'.ty == 33 && lower r'.name == lower r.name && r'.rdata != r.rdata && r'.ttl > 0)
+      -- (the label of the lost tiebreak comes after the mechanisms that explain the record by
+      -- themselves - a late iteration, a re-registration: since the repair of D34 a competing probe
+      -- that was read is not a reason any more)
+      if staleSrv then some s!"old-name-used-after-rename {what}"
+      else if renamedName && probedBy asked p.t then some s!"record-missing-from-first-probe-after-rename {what}"
       else if timeJump then some s!"announced-with-fewer-than-three-probes-late-iteration {what}"
       else if sameInst then some s!"answered-while-address-still-probing {what}"
       else if sharedHost then some s!"announced-with-fewer-than-three-probes-shared-probe {what}"
+      else if tiebreak then some s!"probe-resumes-without-wakeup-after-lost-tiebreak {what}"
       else some s!"record-sent-before-three-probes {what}"
 
 /-- announce events of daemon `d`: (iteration, instance lower-cased, "host:intf") -/
@@ -307,6 +315,36 @@ def monitorUnregister (script : List Cmd) (iters : List Iter) (d : Nat) : Option
           else match loud with
             | some p => some s!"speaks-for-service-after-unregister name={hexOfBytes name} t={p.t}"
             | none => none
+
+/-! ### C10 at daemon level -/
+
+/-- `ok_C10` on a responder: a query that lists one of our records as a known answer - the very
+    record we would send (same owner spelling, type, class with the cache-flush bit, RDATA) with
+    a TTL above half of ours - is not answered with that record; and the other way round, a
+    listed TTL of at most half (or other RDATA) does not silence an answer the query asks for
+    (judged for address questions on a host name, where the expected answer is unambiguous).
+    Only iterations that read exactly one datagram and made no API call are judged. -/
+def monitorKnownAnswers (script : List Cmd) (iters : List Iter) (d : Nat) : Option String :=
+  if !plainNames script then none else
+  let pk := sentBy iters d
+  let rxs := readBy iters d
+  rxs.findSome? fun x =>
+    if x.resp then none else
+    let alone := (rxs.filter fun y => y.k == x.k).length == 1
+    let quietIter := (iters.toArray[x.k]?.map fun it => it.calls.isEmpty &&
+      !(it.evs.any fun e => e.2.headD "" == "announce" || e.2.headD "" == "unreg")).getD false
+    if !alone || !quietIter then none else
+    let out := pk.filter fun p => p.k == x.k && p.resp
+    -- (1) suppressed records must stay unsent
+    out.findSome? fun p =>
+      p.m.answers.findSome? fun r =>
+        let listed := x.m.answers.any fun ka =>
+          ka.name == r.name && ka.ty == r.ty && ka.cls == r.cls && ka.flush == r.flush && ka.rdata == r.rdata &&
+          decide (2 * ka.ttl > r.ttl)
+        -- a legacy (unicast) answer clears the cache-flush bit: compare the multicast form only
+        if listed && p.dest == "m" && r.ttl > 0 then
+          some s!"answer-sent-although-listed-as-known-answer rec={hexOfBytes r.name}/{r.ty} t={p.t}"
+        else none
 
 /-! ### C06 -/
 
